@@ -95,6 +95,37 @@ class Registry:
         self.live = []
 
 
+class _Acc:
+    __slots__ = ('items',)
+
+    def __init__(self, items=()):
+        self.items = items
+
+    def __add__(self, x):
+        U._h('map_fn')
+        return _Acc(self.items + (x,))
+
+
+class _LeavesIt:
+    # module-level on purpose: a class created per call is cyclic garbage that keeps its closure (the leaves) alive until
+    # the next collection, which a refcount ledger would see as a retained reference
+    __slots__ = ('src', 'i')
+
+    def __init__(self, src):
+        self.src = src
+        self.i = 0
+
+    def __iter__(self):
+        return self
+
+    def __next__(self):
+        U._h('leaves.__next__')
+        if self.i >= len(self.src):
+            raise StopIteration
+        self.i += 1
+        return self.src[self.i - 1]
+
+
 class Scn:
     """One scenario: registrations + arguments for the operation catalogue."""
 
@@ -188,23 +219,7 @@ class Scn:
 
     def leaves_iter(self):
         """An instrumented iterable of leaves (engine calls __next__)."""
-        src = list(self.leaves)
-
-        class It:
-            def __init__(s):
-                s.i = 0
-
-            def __iter__(s):
-                return s
-
-            def __next__(s):
-                U._h('leaves.__next__')
-                if s.i >= len(src):
-                    raise StopIteration
-                s.i += 1
-                return src[s.i - 1]
-
-        return It()
+        return _LeavesIt(list(self.leaves))
 
     def tracked(self):
         """Objects whose reference counts the ledger follows."""
@@ -500,17 +515,7 @@ def _ops():
             U._h('map_fn')
             return 0
 
-        class Acc:
-            __slots__ = ('items',)
-
-            def __init__(a, items=()):
-                a.items = items
-
-            def __add__(a, x):
-                U._h('map_fn')
-                return Acc(a.items + (x,))
-
-        return (optree.tree_sum(s.tree, Acc(), is_leaf=s.pred, **s.kw).items,
+        return (optree.tree_sum(s.tree, _Acc(), is_leaf=s.pred, **s.kw).items,
                 optree.tree_max(s.tree, default=None, key=key, is_leaf=s.pred, **s.kw),
                 optree.tree_min(s.tree, default=None, key=key, is_leaf=s.pred, **s.kw),
                 optree.tree_any(s.tree, is_leaf=s.pred, **s.kw))
